@@ -39,8 +39,14 @@ func genC07(r *core.Rng, id int) *Case {
 		}
 	}
 	defs := d.Defs()
+	l := gen.RandomLayout(r, len(defs), true)
+	if id%5 == 4 && len(defs) > 1 {
+		// every definition in its own literal, all literals on one Go source line: sources that
+		// share their pseudo file name and differ in their number of lines
+		l = gen.OneLineGoLayout(len(defs))
+	}
 	return &Case{ID: fmt.Sprintf("p%d", id), Schema: s, SchemaFiles: map[string]string{"schema.graphql": s.SDL()}, Defs: defs,
-		Layout: gen.RandomLayout(r, len(defs), true), Cfg: gen.RandomCfg(r, s)}
+		Layout: l, Cfg: gen.RandomCfg(r, s)}
 }
 
 type yamlCase struct {
